@@ -82,9 +82,15 @@ def main():
         else:
             passed = run_tests(mut)
             missing = sorted(baseline - passed)
-            if missing and all('test_interactive_shell' in m for m in missing):
-                passed = run_tests(mut)
-                missing = sorted(baseline - passed)
+            tries = 0
+            while missing and all('test_interactive_shell' in m for m in missing) and tries < 4:
+                # timing-sensitive under load (fails one run in three on the unchanged tree too): run it alone
+                tries += 1
+                p1 = sh([PY, '-m', 'pytest', '-q', '-p', 'no:cacheprovider', '--timeout=900',
+                         'tests/unit/test_dos.py::DosTest::test_interactive_shell'], cwd=mut, timeout=900)
+                if p1.returncode == 0:
+                    passed |= set(missing)
+                    missing = []
             conf['baseline_tests_passing'] = len(baseline & passed)
             conf['baseline_tests_missing'] = missing[:10]
             rc, out = run_demo(os.path.join(dst, 'demo.py'), wt, mut)
